@@ -26,6 +26,7 @@ RULE = (
     "the case."
 )
 ASSUMPTIONS = [
+    'half of the segment cases apply a second isometry to the image of the first (as a product with a copy, or in place): length and end points must follow both maps',
     "reference length = 20-point Gauss-Legendre on 6 and 12 panels per smooth piece (pieces split where a derivative "
     "component vanishes); a case whose two resolutions differ by more than 1e-11 relative is not judged on accuracy",
     "cubic Beziers and non-circular arcs are measured by chord subdivision whose error argument is a per-leaf "
